@@ -44,3 +44,74 @@ def run_real(ctx):
     if not agg.get("inconclusive") and (min(e.get(k, 0) for k in ("start-up", "5s-1ns", "5s", "5s+1ns", "inside", "beyond")) < 5):
         agg["inconclusive"] = "threshold edges not all exercised: %s" % e
     return agg
+
+
+def judge_timeline(j):
+    """Expected status of the real segment over time, judged only well away from the transitions.
+    Returns (n_judged, list of problem strings)."""
+    phases = j["phases"]
+    ends = [p[0] for p in phases[1:]] + [1e9]
+    bad = []
+    judged = 0
+    seen_sync = False
+    for (start, mode), end in zip(phases, ends):
+        for t, status, bound in j["samples"]:
+            if not (start <= t < end):
+                continue
+            rel = t - start
+            exp = None
+            if mode == "answer":
+                if rel > 2.3:
+                    exp = 1
+            elif mode == "unsync":
+                if rel > 2.3 and seen_sync:
+                    exp = 2
+            elif mode == "absent" and seen_sync:
+                if 2.3 < rel < 3.8:
+                    exp = 2
+                elif rel > 6.3:
+                    exp = 0
+            if exp is not None:
+                judged += 1
+                if status != exp:
+                    bad.append("t=%.1fs (%.1fs into phase '%s'): segment status %d expected %d" % (t, rel, mode, status, exp))
+        if mode == "answer" and end - start > 2.3:
+            seen_sync = True
+    return judged, bad
+
+
+def run_timelines(ctx, scripts):
+    """Whole `clockbound` release binary + chronyd stand-in, real time. Returns (judged, violations, samples)."""
+    from .common import VERIF
+    relbin = os.path.join(ctx.build_repo(["clock-bound-d", "clock-bound-ffi"], release=True), "clockbound")
+    cmds, outs = [], []
+    for i, sc in enumerate(scripts):
+        sf = os.path.join(ctx.tmp, "tl-script-%d.json" % i)
+        json.dump(sc, open(sf, "w"))
+        o = os.path.join(ctx.tmp, "tl-%d.json" % i)
+        outs.append(o)
+        cmds.append(sandbox.wrap(["python3", os.path.join(VERIF, "vlib", "nsrun.py"), "timeline", relbin, o, sf]))
+    res = ctx.run_parallel(cmds, 300)
+    judged = 0
+    viol, samples = [], []
+    for (rc, text), o, sc in zip(res, outs, scripts):
+        if rc != 0 or not os.path.exists(o):
+            return 0, [], [], "whole-binary timeline run did not finish: %s" % text[-200:]
+        j = json.load(open(o))
+        n, bad = judge_timeline(j)
+        judged += n
+        if not j["daemon_alive_at_end"]:
+            bad.append("the daemon died during the run")
+        for b in bad[:3]:
+            rp = os.path.join(ctx.replay_dir, "C13-timeline-%d.json" % len(viol))
+            with open(rp, "w") as f:
+                json.dump({"script": sc, "observed": j}, f)
+            viol.append({"sig": "whole-binary-status-timeline", "detail": "script %s: %s" % (sc, b), "replay": rp})
+        changes = []
+        prev = None
+        for t, s, b in j["samples"]:
+            if s != prev:
+                changes.append([t, s])
+                prev = s
+        samples.append({"script": sc, "status_changes": changes, "chronyd_requests": j["chronyd_requests"]})
+    return judged, viol, samples, None
